@@ -409,3 +409,98 @@ def unit_preprocess_sylvester(timeout_ms=10000):
         else:
             eng.oblige("solver-called-once-with-the-value-and-its-answer-returned", z3.BoolVal(len(calls) == 1 and calls[0] is elem and isinstance(res, T) and res.args[0] is elem))
     return run_unit("block_diagonalization:_preprocess_sylvester/wrapped", harness, functions=[(MODULE, "_preprocess_sylvester"), (MODULE, "_preprocess_sylvester/wrapped")], timeout_ms=timeout_ms)
+
+
+# ---- _convert_if_zero ------------------------------------------------------------------------------------
+
+def unit_convert_if_zero(kind, timeout_ms=10000):
+    """_convert_if_zero(value, atol): kind in dense | sparse | sympy | sentinel | scalar.
+      * the zero sentinel for: a dense array / the stored entries of a sparse value (after conversion to CSR, which sums duplicates) ALL within the CALLER's atol of 0 - the decision is one
+        tolerance test against 0 whose absolute tolerance IS the atol argument (numpy's own defaults, rtol = 1e-5 / atol = 1e-8, must not take its place: with the reference 0 only the
+        absolute tolerance counts); a sympy matrix that is identically zero; a scalar equal to 0; the sentinel itself;
+      * otherwise the value itself (the same object, not a converted copy)."""
+    node = frontend.find(MODULE, "_convert_if_zero")
+
+    def harness(eng):
+        ATOL = T("atol")
+        tests = []
+
+        class Cond(Model):
+            """the truth value of a tolerance test: decided by the environment, recorded"""
+            def __init__(s, desc):
+                s.desc = desc
+
+            def m_truth(s, e):
+                r = e.branch(e.fresh("entries_within_tolerance", "bool"))
+                tests.append((s.desc, r))
+                return r
+
+        class Tok(T):
+            METHODS = T.METHODS | {"max", "min", "any", "all"}
+
+            def m_getattr(s, e, name):
+                if name == "data":
+                    return Tok("data", s)
+                if name in s.METHODS:
+                    return Builtin(name, lambda e_, *a, **kw: Tok("." + name, s, *a, *[Tok("kw", Tok(k), v) for k, v in sorted(kw.items())]))
+                return super().m_getattr(e, name)
+
+            def m_binop(s, e, op, other, reflected):
+                if isinstance(op, (ast.LtE, ast.Lt, ast.GtE, ast.Gt)) and not reflected:
+                    return Cond((type(op).__name__, s, other))
+                if isinstance(op, ast.Eq) and kind == "scalar" and other == 0:
+                    return Cond(("Eq0", s, other))
+                return super().m_binop(e, op, other, reflected)
+
+            def m_isinstance(s, e, clsname):
+                return clsname in {"dense": ("ndarray",), "sparse": ("sparray", "spmatrix"), "sympy": ("MatrixBase",)}.get(kind, ())
+
+        def allclose(e, a, b, *pos, **kw):
+            # numpy signature: allclose(a, b, rtol=1e-05, atol=1e-08, equal_nan=False)
+            rtol = kw.get("rtol", pos[0] if len(pos) > 0 else "default 1e-5")
+            atol = kw.get("atol", pos[1] if len(pos) > 1 else "default 1e-8")
+            return Cond(("allclose", a, b, rtol, atol))
+        value = ZERO if kind == "sentinel" else Tok("value")
+        izm = None
+        if kind == "sympy":
+            izm = eng.branch(eng.fresh("is_zero_matrix", "bool"))
+            orig = Tok.m_getattr
+
+            def ga(s, e, name):
+                if name == "is_zero_matrix" and s is value:
+                    return izm
+                return orig(s, e, name)
+            Tok.m_getattr = ga
+        eng.globals.update({"np": Namespace("np", {"ndarray": TypeObj("ndarray"), "allclose": Builtin("np.allclose", allclose), "abs": Builtin("np.abs", lambda e, x: Tok("abs", x))}),
+                            "sparse": Namespace("sparse", {"issparse": Builtin("issparse", lambda e, x: kind == "sparse" and x is value), "csr_array": Builtin("csr_array", lambda e, x: Tok("csr", x))}),
+                            "sympy": Namespace("sympy", {"MatrixBase": TypeObj("MatrixBase")}), "zero": ZERO})
+        res = eng.call(Closure(node, Env(None, {}), "_convert_if_zero"), [value, ATOL], {})
+        if kind == "sentinel":
+            return eng.oblige("sentinel-stays-the-sentinel", z3.BoolVal(res is ZERO))
+        if kind == "sympy":
+            return eng.oblige("sympy:sentinel-iff-identically-zero-else-the-value-itself", z3.BoolVal((res is ZERO) if izm else (res is value)))
+        ok = len(tests) == 1
+        eng.oblige("exactly-one-test-decides", z3.BoolVal(ok), detail=repr([t[0] for t in tests])[:300])
+        if not ok:
+            return
+        desc, outcome = tests[0]
+        eng.oblige("sentinel-iff-the-test-succeeds-else-the-value-itself", z3.BoolVal((res is ZERO) if outcome else (res is value)))
+        if kind == "scalar":
+            return eng.oblige("scalar:test-is-equality-with-0", z3.BoolVal(desc[0] == "Eq0" and desc[1] is value))
+
+        def entries_ok(x):
+            if kind == "dense":
+                return x is value
+            # stored entries of the CSR form (duplicates of COO input summed)
+            return isinstance(x, Tok) and x.head == "data" and isinstance(x.args[0], Tok) and x.args[0].head == "csr" and x.args[0].args[0] is value
+        if desc[0] == "allclose":
+            _k, a, b, rtol, atol = desc
+            eng.oblige("tolerance-test-is-on-the-entries-against-0", z3.BoolVal(entries_ok(a) and isinstance(b, int) and b == 0))
+            eng.oblige("absolute-tolerance-of-the-test-is-the-callers-atol", z3.BoolVal(atol is ATOL),
+                       detail=f"np.allclose(a, 0, rtol={rtol!r}, atol={atol!r}): against the reference 0 only atol counts; numpy's default 1e-8 would discard blocks with entries up to 1e-8")
+        else:
+            # max |entry| <= atol
+            opn, lhs, rhs = desc
+            good = opn == "LtE" and rhs is ATOL and isinstance(lhs, Tok) and lhs.head == ".max" and isinstance(lhs.args[0], Tok) and lhs.args[0].head == "abs" and entries_ok(lhs.args[0].args[0])
+            eng.oblige("tolerance-test-is-max-abs-entry-<=-the-callers-atol", z3.BoolVal(bool(good)), detail=repr(desc)[:300])
+    return run_unit(f"block_diagonalization:_convert_if_zero[{kind}]", harness, functions=[(MODULE, "_convert_if_zero")], timeout_ms=timeout_ms)
